@@ -850,33 +850,59 @@ func (e *env) runSSH(sc scenario, ob *obs) {
 	cc := e.srv.L.DialTCP(lab.TCPAddr("10.0.0.1", 2222), lab.TCPAddr(ip, port))
 	defer cc.Close()
 	cc.SetDeadline(time.Now().Add(20 * time.Second))
-	conn, chans, reqs, err := ssh.NewClientConn(cc, "lab", &ssh.ClientConfig{User: user, Auth: []ssh.AuthMethod{ssh.Password(pass)}, HostKeyCallback: ssh.InsecureIgnoreHostKey(), Timeout: 10 * time.Second})
+	// a client may try several passwords on one connection; every attempt is relayed, however many the backend
+	// has turned down before
+	passes := []string{pass}
+	if sc.Sub%3 == 2 {
+		passes = nil
+		for i := r.PickI([]int{2, 3, 6, 7, 8, 12}); i > 1; i-- {
+			passes = append(passes, fmt.Sprintf("no-%s-%d", r.Alnum(4), i))
+		}
+		passes = append(passes, pass)
+	}
+	asked := 0
+	auth := ssh.RetryableAuthMethod(ssh.PasswordCallback(func() (string, error) {
+		if asked >= len(passes) {
+			return "", fmt.Errorf("no more passwords")
+		}
+		asked++
+		return passes[asked-1], nil
+	}), len(passes))
+	conn, chans, reqs, err := ssh.NewClientConn(cc, "lab", &ssh.ClientConfig{User: user, Auth: []ssh.AuthMethod{auth}, HostKeyCallback: ssh.InsecureIgnoreHostKey(), Timeout: 10 * time.Second})
 	if (err == nil) != accept {
-		ob.bad("ssh|auth-outcome", "backend %s the password, the client's authentication through the proxy %s (%v)", map[bool]string{true: "accepts", false: "rejects"}[accept], map[bool]string{true: "succeeded", false: "failed"}[err == nil], err)
+		ob.bad("ssh|auth-outcome", "backend %s the last of %d passwords, the client's authentication through the proxy %s (%v)", map[bool]string{true: "accepts", false: "rejects"}[accept], len(passes), map[bool]string{true: "succeeded", false: "failed"}[err == nil], err)
 	}
 	e.sb.mu.Lock()
 	var seen *sshSeen
+	var all []*sshSeen
 	if len(e.sb.seen) > base {
-		seen = e.sb.seen[base]
+		all = append(all, e.sb.seen[base:]...)
+		seen = all[len(all)-1]
 	}
 	e.sb.mu.Unlock()
 	if seen == nil {
 		ob.bad("ssh|credentials", "the backend saw no authentication attempt")
-	} else if seen.User != user || seen.Pass != pass {
-		ob.bad("ssh|credentials", "backend saw %q/%q, client presented %q/%q", seen.User, seen.Pass, user, pass)
+	} else if len(all) != len(passes) {
+		ob.bad("ssh|attempts", "the client made %d password attempts on one connection, the backend saw %d", len(passes), len(all))
 	} else {
-		ob.Backend += len(user) + len(pass)
+		for i, a := range all {
+			if a.User != user || a.Pass != passes[i] {
+				ob.bad("ssh|credentials", "attempt %d: backend saw %q/%q, client presented %q/%q", i, a.User, a.Pass, user, passes[i])
+				break
+			}
+			ob.Backend += len(user) + len(passes[i])
+		}
 	}
 	nauth := 0
 	for _, c := range lab.Events.Since(ev0) {
 		sp, _ := lab.Int(c.Rec, "source-port")
-		if int(sp) == port && lab.Str(c.Rec, "type") == "password-authentication" && lab.Str(c.Rec, "ssh.username") == user && lab.Str(c.Rec, "ssh.password") == pass {
+		if int(sp) == port && lab.Str(c.Rec, "type") == "password-authentication" && lab.Str(c.Rec, "ssh.username") == user && nauth < len(passes) && lab.Str(c.Rec, "ssh.password") == passes[nauth] {
 			nauth++
 		}
 	}
 	ob.Events += nauth
-	if nauth != 1 {
-		ob.bad("ssh|auth-event", "%d password-authentication events with the presented credentials and the client's address", nauth)
+	if nauth != len(passes) {
+		ob.bad("ssh|auth-event", "%d password-authentication events with the presented credentials (in order) and the client's address, %d attempts", nauth, len(passes))
 	}
 	if err != nil || seen == nil {
 		return
